@@ -147,8 +147,8 @@ fn filename_comparator(file1: &PathBuf, file2: &PathBuf) -> Ordering {
         return date_str1.cmp(date_str2);
     }
 
-    // same date, compare the file number
-    name1.cmp(name2)
+    // same date, compare the file number: a shorter name has the smaller number (".9" < ".10")
+    name1.len().cmp(&name2.len()).then_with(|| name1.cmp(name2))
 }
 
 #[cfg(test)]
